@@ -1713,6 +1713,171 @@ def guarded_lookup_rule(cx, rep, rid):
 
 
 # ---------------------------------------------------------------------------------------------------- C04.11
+_MAP_GETS = ("get", "get_mut", "get_key_value")
+# std adaptors that hand their receiver's payload on (wrapped / unwrapped / borrowed / cloned) ...
+_PASS_RECV = {"cloned", "copied", "clone", "to_owned", "as_ref", "as_mut", "as_deref", "as_deref_mut", "borrow", "borrow_mut", "deref",
+              "into", "ok", "ok_or", "ok_or_else", "map_err", "unwrap", "expect", "unwrap_or", "unwrap_or_default", "flatten", "filter",
+              "take", "or", "or_else", "unwrap_or_else"}
+# ... and those whose result is what the closure they are given returns
+_PASS_CLOSURE = {"and_then", "map", "or_else", "unwrap_or_else", "map_or", "map_or_else", "then", "filter_map", "find_map"}
+_WRAPPERS = re.compile(r"(::Some|::Ok|::Err|Try::branch|FromResidual::from_residual|From::from|(Box|Rc|Arc)::<[^>]*>::new)$")
+
+
+def _is_map_get(c):
+    return c["k"] == "MethodCall" and c.get("method") in _MAP_GETS and "Map<" in (c["recv"].get("ty") or "") and bool(c.get("args"))
+
+
+def _binding_sources(node):
+    """local id -> the expressions a binding made inside `node` is taken from (let initialisers, match scrutinees,
+    and - for the parameters of a closure handed to a method - the receiver of that method: `opt.and_then(|it| ..)`)"""
+    src = {}
+    for x in walk(node):
+        if x["k"] in ("LetStmt", "Let") and x.get("init") is not None:
+            for b in walk(x["pat"]):
+                if b["k"] == "P.Binding":
+                    src.setdefault(b.get("lid"), []).append(x["init"])
+        if x["k"] == "Match":
+            for a in x["arms"]:
+                for b in walk(a["pat"]):
+                    if b["k"] == "P.Binding":
+                        src.setdefault(b.get("lid"), []).append(x["scrut"])
+        if x["k"] == "MethodCall":
+            for cl in x.get("args") or []:
+                if cl.get("k") == "Closure":
+                    for b in walk(cl.get("params") or []):
+                        if b["k"] == "P.Binding":
+                            src.setdefault(b.get("lid"), []).append(x["recv"])
+    return src
+
+
+def _derivation(src, e, seen=None, depth=0):
+    """expressions e is computed from, through the bindings recorded in src"""
+    seen = seen if seen is not None else set()
+    out = [e]
+    for z in walk(e):
+        if z["k"] == "Path" and z.get("res") == "local" and z.get("lid") in src and z["lid"] not in seen and depth < 8:
+            seen.add(z["lid"])
+            for e2 in src[z["lid"]]:
+                out += _derivation(src, e2, seen, depth + 1)
+    return out
+
+
+def _local_ids(es):
+    return {z.get("lid") for e in es for z in walk(e) if z["k"] == "Path" and z.get("res") == "local"}
+
+
+def _call_target(F, crate, c):
+    if c["k"] == "Call":
+        return F._callee_gid(crate, c.get("callee") or "")
+    if c["k"] == "MethodCall":
+        return F._callee_gid(crate, c.get("resolved") or c.get("callee") or "")
+    return None
+
+
+def _call_operands(c):
+    """operands of a call in the order of the callee's parameters (receiver first)"""
+    return ([c["recv"]] if c["k"] == "MethodCall" else []) + list(c.get("args") or [])
+
+
+def _lookup_keys(F, crate, c, helpers):
+    """key expressions if the call node c is a table lookup: `<map>.get(<key>)` itself, or a call of a lookup helper -
+    then the key is the operand in the helper's key position"""
+    if _is_map_get(c):
+        return [c["args"][0]]
+    if c["k"] in ("Call", "MethodCall"):
+        ops = _call_operands(c)
+        return [ops[i] for i in sorted(helpers.get(_call_target(F, crate, c), ())) if i < len(ops)]
+    return []
+
+
+def _lookups_in(F, crate, e, helpers):
+    """(call node, key expression) of every table lookup inside e"""
+    for c in walk(e):
+        for key in _lookup_keys(F, crate, c, helpers):
+            yield c, key
+
+
+def _value_calls(src, e, stop, seen=None, depth=0):
+    """the calls whose RESULT the value of e may be - looked at through blocks, branches, the function's own
+    bindings, borrows / fields, Option / Result plumbing (`?`, `Some(..)`, `.and_then(|it| it.as_ref()).cloned()`) -
+    unlike _derivation, not every call that merely occurs in the text of e.  stop(call): do not look behind it."""
+    seen = seen if seen is not None else set()
+    if not isinstance(e, dict) or depth > 40:
+        return
+    k = e.get("k")
+    if k == "BlockExpr":
+        yield from _value_calls(src, e.get("block"), stop, seen, depth + 1)
+    elif k == "Block":
+        yield from _value_calls(src, e.get("expr"), stop, seen, depth + 1)
+    elif k == "If":
+        yield from _value_calls(src, e.get("then"), stop, seen, depth + 1)
+        yield from _value_calls(src, e.get("else"), stop, seen, depth + 1)
+    elif k == "Match":
+        for a in e["arms"]:
+            yield from _value_calls(src, a["body"], stop, seen, depth + 1)
+    elif k in ("AddrOf", "Unary", "Cast", "Field", "Index"):
+        yield from _value_calls(src, e.get("e"), stop, seen, depth + 1)
+    elif k == "Path":
+        if e.get("res") == "local" and e.get("lid") in src and e["lid"] not in seen:
+            seen.add(e["lid"])
+            for e2 in src[e["lid"]]:
+                yield from _value_calls(src, e2, stop, seen, depth + 1)
+    elif k == "Call":
+        yield e
+        if not stop(e) and _WRAPPERS.search(e.get("callee") or ""):
+            for a in e.get("args") or []:
+                yield from _value_calls(src, a, stop, seen, depth + 1)
+    elif k == "MethodCall":
+        yield e
+        cal = e.get("callee") or ""
+        if stop(e) or not cal.startswith(("std::", "core::", "alloc::")):
+            return
+        m = e.get("method")
+        closures = [a for a in e.get("args") or [] if a.get("k") == "Closure"]
+        if m in _PASS_CLOSURE and closures:
+            for cl in closures:
+                yield from _value_calls(src, cl["body"], stop, seen, depth + 1)
+        if m in _PASS_RECV or (m in _PASS_CLOSURE and not closures):
+            yield from _value_calls(src, e["recv"], stop, seen, depth + 1)
+
+
+def lookup_helpers(F, depth=2):
+    """local function -> positions of the parameters that key a table lookup whose result the function hands back.
+    (benign b90: the lookup `partial_validators.get(r).and_then(|it| it.as_ref()).cloned()` of an alias-following
+    loop became the helper `resolved_validator(&self, r)`; the loop that calls it is the same reference chase.)
+    A function qualifies if its value - tail expression and `return`s, see _value_calls - may be the result of a map
+    lookup keyed by something computed from the parameter, or of a call of a function that qualifies; `depth` levels
+    (a helper, and a helper of a helper - what extracting code out of a loop produces; the full closure would also
+    name the recursive resolvers, which end in a memo lookup, and they are not what a loop 'looks up')."""
+    H = {}
+    cand = {}
+    for g, t in F.hir.items():
+        f = F.fns.get(g)
+        if f is None or "beff-core/src" not in (f.file or "") or f.kind == "Closure":
+            continue
+        params = [{b.get("lid") for b in walk(p) if b["k"] == "P.Binding"} for p in t["params"]]
+        if not any(params):
+            continue
+        body = t["body"]
+        outs = [body] + [r["e"] for r in walk(body) if r["k"] == "Ret" and isinstance(r.get("e"), dict)]
+        cand[g] = (f.crate, params, _binding_sources(body), outs)
+    for level in range(depth):
+        prev = {g: set(v) for g, v in H.items()}
+        for g in sorted(cand):
+            crate, params, src, outs = cand[g]
+            keyed = set(prev.get(g, ()))
+            for o in outs:
+                for c in _value_calls(src, o, lambda c_: bool(_lookup_keys(F, crate, c_, prev))):
+                    for key in _lookup_keys(F, crate, c, prev):
+                        kl = _local_ids(_derivation(src, key))
+                        keyed |= {i for i, pl in enumerate(params) if pl & kl}
+            if keyed:
+                H[g] = keyed
+        if H == prev:
+            break
+    return H
+
+
 def reference_chase_rule(cx, rep, rid):
     """The recursion rule (C04.3) sees calls; a `while` / `loop` that follows references through a name -> definition
     table is the same traversal without a call: `while let Ref(r) = &t.kind { t = table.get(r)..; }` never ends on
@@ -1724,6 +1889,9 @@ def reference_chase_rule(cx, rep, rid):
     F = cx.rs
     rep.rule(rid, "a loop that follows references through a definition table records where it has been")
     n_loops, n_chase = 0, 0
+    # the lookup may sit behind a helper (`self.resolved_validator(r)`): calls of lookup helpers count as lookups keyed
+    # by the operand in the helper's key position, so the loop is found wherever it lives (b90: `follow_ref_chain`)
+    helpers = lookup_helpers(F)
     for g, t in sorted(F.hir.items()):
         f = F.fns.get(g)
         if f is None or "beff-core/src" not in (f.file or ""):
@@ -1732,31 +1900,7 @@ def reference_chase_rule(cx, rep, rid):
             if lp["k"] != "Loop" or lp.get("src") == "ForLoop" or any(m_ in ("Deserialize", "Serialize") for m_ in (lp.get("mac") or [])):
                 continue
             n_loops += 1
-            src = {}
-            for x in walk(lp):
-                if x["k"] in ("LetStmt", "Let") and x.get("init") is not None:
-                    for b in walk(x["pat"]):
-                        if b["k"] == "P.Binding":
-                            src.setdefault(b.get("lid"), []).append(x["init"])
-                if x["k"] == "Match":
-                    for a in x["arms"]:
-                        for b in walk(a["pat"]):
-                            if b["k"] == "P.Binding":
-                                src.setdefault(b.get("lid"), []).append(x["scrut"])
-
-            def closure(e, seen=None, depth=0):
-                """expressions e is computed from, through the bindings made inside the loop"""
-                seen = seen if seen is not None else set()
-                out = [e]
-                for z in walk(e):
-                    if z["k"] == "Path" and z.get("res") == "local" and z.get("lid") in src and z["lid"] not in seen and depth < 8:
-                        seen.add(z["lid"])
-                        for e2 in src[z["lid"]]:
-                            out += closure(e2, seen, depth + 1)
-                return out
-
-            def lids(es):
-                return {z.get("lid") for e in es for z in walk(e) if z["k"] == "Path" and z.get("res") == "local"}
+            src = _binding_sources(lp)
             chase = None
             for a in walk(lp):
                 if a["k"] != "Assign":
@@ -1769,12 +1913,10 @@ def reference_chase_rule(cx, rep, rid):
                 if not root or root.get("k") != "Path" or root.get("res") != "local":
                     continue
                 X = root.get("lid")
-                feed = closure(a["r"])
-                for e in feed:
-                    for c in walk(e):
-                        if c["k"] == "MethodCall" and c.get("method") in ("get", "get_mut", "get_key_value") and "Map<" in (c["recv"].get("ty") or "") and c.get("args"):
-                            if X in lids(closure(c["args"][0])):
-                                chase = (a, c, root.get("name"))
+                for e in _derivation(src, a["r"]):
+                    for c, key in _lookups_in(F, f.crate, e, helpers):
+                        if X in _local_ids(_derivation(src, key)):
+                            chase = (a, c, root.get("name"))
             if chase is None:
                 continue
             n_chase += 1
@@ -1787,9 +1929,10 @@ def reference_chase_rule(cx, rep, rid):
                     fuel = True
             rep.ob(rid, "%s/%s" % (f.name, xname), bool(records) or fuel,
                    "%s follows references in a loop - `%s` is re-assigned from a lookup (`%s.get(..)`) keyed by what `%s` holds - without recording the keys it has seen and without a fuel counter: a reference cycle (`type A = B; type B = A`, also across files) keeps the loop running forever, where the compiler owes a diagnostic" % (
-                       g, xname, (c["recv"].get("name") or "table"), xname),
-                   "%s:%s" % (f.file, lp["line"]), sample={"fn": f.name, "chased": xname, "records_visited": bool(records), "fuel": fuel})
-    rep.ob(rid, "scan", True, sample={"non_for_loops": n_loops, "reference_chases": n_chase})
+                       g, xname, ((c["recv"].get("name") or "table") if _is_map_get(c) else "%s(..) -> table" % (c.get("method") or (c.get("callee") or "helper").rsplit("::", 1)[-1])), xname),
+                   "%s:%s" % (f.file, lp["line"]), sample={"fn": f.name, "chased": xname, "records_visited": bool(records), "fuel": fuel,
+                                                           "lookup_through_helper": not _is_map_get(c)})
+    rep.ob(rid, "scan", True, sample={"non_for_loops": n_loops, "reference_chases": n_chase, "lookup_helpers": len([h for h in helpers.values() if h])})
     rep.floor(rid, "reference-chasing loops (positive control: the addressed-type walk)", n_chase, 1)
 
 
